@@ -132,9 +132,9 @@ theorem tndColor_sat (d : Bytes) (o : Nat) (has : Bool) (ho : o ≤ d.size) :
       apply Sat.bind (rd_sat (by omega)); intro _ _
       simp only [sat_pure]; omega
 
-theorem tndLoop_sat (d : Bytes) (hd : FitsI32 d) (bw : Int) (hbw : bw ≤ 1000) :
+theorem tndLoop_sat (d : Bytes) (hd : FitsI32 d) (bw : Int) (hbw : bw ≤ 2147483647) :
     ∀ (fuel o : Nat) (p : Pos) (g : Geo), d.size < fuel + o → o ≤ d.size →
-      (-2147483648 ≤ p.x ∧ p.x < 1000) → (-2147483648 ≤ p.y ∧ p.y ≤ 65534 + (o : Int)) →
+      (-2147483648 ≤ p.x ∧ p.x < 2147483647) → (-2147483648 ≤ p.y ∧ p.y ≤ 65534 + (o : Int)) →
       (tndLoop d bw fuel o p g).Sat (fun _ => True) := by
   unfold FitsI32 at hd
   intro fuel
@@ -184,15 +184,31 @@ theorem tndLoop_sat (d : Bytes) (hd : FitsI32 d) (bw : Int) (hbw : bw ≤ 1000) 
           · exact ⟨Nat.le_refl _, by omega⟩
         apply Sat.bind hops; intro o' ho'
         apply Sat.bind (chk32_sat (by omega)); intro h _
-        apply Sat.bind (advance_sat (B := 1000) (by omega) hbw hx (by omega)); intro q hq
+        apply Sat.bind (advance_sat (B := 2147483647) (by omega) hbw hx (by omega)); intro q hq
         obtain ⟨q1, q2, q3, q4, q5⟩ := hq
         exact ih o' q _ (by omega) ho'.2 ⟨q1, q2⟩ (by omega)
 
-theorem loadTnd_sat (d : Bytes) (hd : FitsI32 d) (sauce : Option (Nat × Nat)) : (loadTnd d sauce).Sat (fun _ => True) := by
+theorem tndGeo_bw (sauce : Option (Nat × Nat)) (hs : ∀ sw sh, sauce = some (sw, sh) → sw ≤ 2147483647) :
+    1 ≤ (tndGeo sauce).bw ∧ (tndGeo sauce).bw ≤ 2147483647 := by
+  have hb0 := initGeo_bw 80 25 tndLinesCleared sauce (by decide)
+  have hwa : tndWideAbove = 1000 := rfl
+  unfold tndGeo
+  cases sauce with
+  | none => simp only []; omega
+  | some p =>
+    obtain ⟨sw, sh⟩ := p
+    have := hs sw sh rfl
+    simp only []
+    split
+    · simp only []; omega
+    · omega
+
+theorem loadTnd_sat (d : Bytes) (hd : FitsI32 d) (sauce : Option (Nat × Nat)) (hs : ∀ sw sh, sauce = some (sw, sh) → sw ≤ 2147483647) :
+    (loadTnd d sauce).Sat (fun _ => True) := by
   unfold loadTnd
   dsimp only
   have e1 : tndHeader.length = 8 := rfl
-  have hb := initGeo_bw 80 25 tndLinesCleared sauce (by decide)
+  have hb := tndGeo_bw sauce hs
   split
   · exact True.intro
   · rename_i hlen
